@@ -70,6 +70,44 @@ theorem printInt_no (v : Int) (x : Char) (hx : isDigit x = false) (hm : x ≠ '-
     · exact printNat_no _ x hx c hc
   · exact printNat_no _ x hx
 
+/-! ### UTF-8 decoding is the identity on ASCII text -/
+
+def isAscii (c : Char) : Bool := decide (c.toNat < 0x80)
+
+theorem utf8DecodeF_ascii (fuel : Nat) (s : Str) (hf : s.length ≤ fuel) (h : ∀ c ∈ s, isAscii c = true) :
+    utf8DecodeF fuel s = s := by
+  induction s generalizing fuel with
+  | nil => cases fuel <;> rfl
+  | cons c r ih =>
+    cases fuel with
+    | zero => simp at hf
+    | succ f =>
+      have hc : c.toNat < 0x80 := by simpa [isAscii] using h c (by simp)
+      have e : decodeRune1 c r = (c, 1) := by simp [decodeRune1, hc]
+      rw [utf8DecodeF]
+      simp only [e, Nat.sub_self, List.drop_zero]
+      rw [ih f (by simpa using hf) (fun x hx => h x (by simp [hx]))]
+
+theorem utf8Decode_ascii (s : Str) (h : ∀ c ∈ s, isAscii c = true) : utf8Decode s = s :=
+  utf8DecodeF_ascii _ s (Nat.le_refl _) h
+
+theorem runeBytes_ascii (s : Str) (h : ∀ c ∈ s, isAscii c = true) : runeBytes s = s := by
+  unfold runeBytes
+  rw [utf8Decode_ascii s h]
+  induction s with
+  | nil => rfl
+  | cons c r ih =>
+    have hc : c.toNat < 0x80 := by simpa [isAscii] using h c (by simp)
+    have : c.toNat % 256 = c.toNat := Nat.mod_eq_of_lt (by omega)
+    simp only [List.map_cons, this, Char.ofNat_toNat]
+    rw [ih (fun x hx => h x (by simp [hx]))]
+
+theorem printNat_ascii (n : Nat) : ∀ c ∈ printNat n, isAscii c = true := by
+  intro c hc
+  obtain ⟨d, hd, rfl⟩ := printNatB_digits 10 (by omega) n c hc
+  have : ∀ d, d < 10 → isAscii (digitChar d) = true := by decide
+  exact this d hd
+
 /-! ### hex -/
 
 theorem charNibble_nibbleChar : ∀ n, n < 16 → Hex.charNibble? (Hex.nibbleChar n) = some n := by decide
@@ -88,6 +126,37 @@ theorem decodeChars_hexLower (bs : List UInt8) : Hex.decodeChars (hexLower bs) =
     show Hex.decodeChars (Hex.nibbleChar (b.toNat / 16) :: Hex.nibbleChar (b.toNat % 16) :: hexLower t) = _
     rw [Hex.decodeChars, charNibble_nibbleChar _ (by omega), charNibble_nibbleChar _ (by omega), ih]
     simp only [u8_split]
+
+theorem decodeChars_length : ∀ (s : Str) (bs : List UInt8), Hex.decodeChars s = some bs → 2 * bs.length = s.length
+  | [], bs, h => by simp [Hex.decodeChars] at h; subst h; rfl
+  | [_], bs, h => by simp [Hex.decodeChars] at h
+  | a :: b :: rest, bs, h => by
+    rw [Hex.decodeChars] at h
+    split at h
+    · rename_i x y r hx hy hr
+      injection h with h
+      subst h
+      have := decodeChars_length rest r hr
+      simp only [List.length_cons]
+      omega
+    · cases h
+
+theorem dropWhile_length_le {α} (p : α → Bool) (l : List α) : (l.dropWhile p).length ≤ l.length := by
+  induction l with
+  | nil => exact Nat.le_refl _
+  | cons a t ih =>
+    rw [List.dropWhile]
+    split
+    · simp only [List.length_cons]; omega
+    · exact Nat.le_refl _
+
+theorem trimSet_length_le (cut : List Char) (s : Str) : (trimSet cut s).length ≤ s.length := by
+  unfold trimSet
+  rw [List.length_reverse]
+  have h1 := dropWhile_length_le (fun x => cut.contains x) (s.dropWhile fun x => cut.contains x).reverse
+  have h2 := dropWhile_length_le (fun x => cut.contains x) s
+  rw [List.length_reverse] at h1
+  omega
 
 theorem hexLower_length (bs : List UInt8) : (hexLower bs).length = 2 * bs.length := by
   induction bs with
@@ -113,6 +182,11 @@ theorem hexLower_chars (bs : List UInt8) : ∀ c ∈ hexLower bs, isLowerHex c =
     · exact nibbleChar_lowerHex _ (by omega)
     · exact nibbleChar_lowerHex _ (by omega)
     · exact ih c h
+
+theorem lowerHex_ascii (c : Char) (h : isLowerHex c = true) : isAscii c = true := by
+  simp only [isLowerHex, Bool.or_eq_true, Bool.and_eq_true, decide_eq_true_eq] at h
+  simp only [isAscii, decide_eq_true_eq]
+  omega
 
 theorem lowerHex_ne (c x : Char) (hc : isLowerHex c = true) (hx : isLowerHex x = false) : c ≠ x := by
   intro h; rw [h] at hc; rw [hc] at hx; cases hx
